@@ -116,6 +116,11 @@ func (c *Config) UnmarshalBinary(data []byte) error {
 
 		// handle our own key separately
 		if p.ID == cm.ID {
+			// our own Paillier modulus comes from the stored primes, but s and t are read as they are:
+			// they must be valid Pedersen parameters for it (in particular not absent)
+			if err := pedersen.ValidateParameters(paillierSecret.Modulus().Modulus, p.S, p.T); err != nil {
+				return fmt.Errorf("config: party %s: %w", p.ID, err)
+			}
 			ps[p.ID] = &Public{
 				ECDSA:    cm.ECDSA.ActOnBase(),
 				ElGamal:  cm.ElGamal.ActOnBase(),
